@@ -220,3 +220,30 @@ Definition ecase_absent_ok (c : ecase) : bool :=
          end) os (e_exchs c)
   | None => true
   end.
+
+(* which part of the oracle fails first (names the finding):
+   0 none, 1 the stream is not a sequence of complete responses / bytes are left over / a wanted
+   exchange was not answered although the connection stayed open, 2 status code or reason phrase,
+   3 an end-to-end field is missing or changed, 4 a hop-by-hop field reaches the client, 5 body, 6 trailers *)
+Definition obs_why (o : obs) (x : xexp) : N :=
+  if negb ((o_code o =? x_code x) && match x_reason x with Some t => str_eqb (o_reason o) t | None => true end) then 2
+  else if negb (forallb (values_match (o_fields o)) (x_fields x)) then 3
+  else if negb (forallb (fun n => match field_values n (o_fields o) with [] => true | _ => false end) (x_absent x)) then 4
+  else if negb (str_eqb (o_body o) (x_body x)) then 5
+  else if negb (forallb (values_match (o_trailers o)) (x_trailers x)) then 6
+  else 0.
+Fixpoint all_why (os : list obs) (es : list exch) : N :=
+  match os, es with
+  | o :: os', e :: es' => let w := obs_why o (e_exp e) in if w =? 0 then all_why os' es' else w
+  | [], [] => 0
+  | _, _ => 1
+  end.
+Definition ecase_why (c : ecase) : N :=
+  match client_parse_seq (e_v11 c) (map (fun e => q_method (e_req e)) (e_exchs c)) (e_stream c) with
+  | Some (os, rest) =>
+      if nonempty rest then 1
+      else let w := all_why os (e_exchs c) in
+           if negb (w =? 0) then w
+           else if (N.of_nat (length (e_exchs c)) =? e_want c) || e_closed c then 0 else 1
+  | None => 1
+  end.
